@@ -152,7 +152,11 @@ _ACT = {"none": "ANone", "relu": "ARelu", "sigmoid": "ASigmoid", "softmax": "ASo
 _COST = {"mse": "CMse", "ce": "CCrossEntropy"}
 
 
-def op_to_coq(k):
+def op_to_coq(k, dual=False):
+    if dual:
+        cf = lambda x: "(%s, 0)" % _cf(x)
+    else:
+        cf = _cf
     name = k[0]
     simple = {"add": "OAdd", "sub": "OSub", "mul": "OMul", "div": "ODiv", "neg": "ONeg",
               "recip": "ORecip", "ln": "OLn", "exp": "OExp", "relu": "ORelu",
@@ -160,11 +164,11 @@ def op_to_coq(k):
     if name in simple:
         return simple[name]
     if name == "scale":
-        return "(OScale %s)" % _cf(k[1])
+        return "(OScale %s)" % cf(k[1])
     if name == "powf":
-        return "(OPowf %s)" % _cf(k[1])
+        return "(OPowf %s)" % cf(k[1])
     if name == "axpy":
-        return "(OAxpy %s)" % _cf(k[1])
+        return "(OAxpy %s)" % cf(k[1])
     if name == "sum":
         return "(OSum %s)" % _cn(k[1])
     if name == "reshape":
@@ -178,8 +182,20 @@ def op_to_coq(k):
     raise ValueError(name)
 
 
-def instr_to_coq(ins):
+def _cfs_dual(vals, tans):
+    return "[" + "; ".join("(%s, %s)" % (_cf(x), _cf(t)) for x, t in zip(vals, tans)) + "]"
+
+
+def instr_to_coq(ins, tangent=None, dual=False):
     n = ins[0]
+    if dual:
+        if n == "leaf":
+            t = tangent if tangent is not None else [0.0] * len(ins[3])
+            return "ILeaf %s %s %s" % (_cns(ins[2]), _cfs_dual(ins[3], t), _cb(ins[1]))
+        if n == "op":
+            return "IOp %s %s" % (op_to_coq(ins[1], dual=True), _cns(ins[2]))
+        if n in ("literal", "flat", "update", "model", "backward"):
+            raise ValueError("instruction %s is not rendered over dual numbers" % n)
     if n == "leaf":
         return "ILeaf %s %s %s" % (_cns(ins[2]), _cfs(ins[3]), _cb(ins[1]))
     if n == "literal":
@@ -239,10 +255,20 @@ Definition R := @run float float_ops.
 """
 
 
-def cases_to_coq(cases):
-    out = [COQ_HEADER]
+COQ_HEADER_DUAL = COQ_HEADER.replace(
+    "Definition R := @run float float_ops.",
+    "Definition R := @run (@dual float) (dual_ops float_ops).")
+
+
+def cases_to_coq(cases, dual=False):
+    out = [COQ_HEADER_DUAL if dual else COQ_HEADER]
     for c in cases:
-        body = ";\n  ".join(instr_to_coq(i) for i in c["instrs"])
+        if dual:
+            tans = c.get("tangents", {})
+            body = ";\n  ".join(instr_to_coq(ins, tans.get(i), dual=True)
+                                for i, ins in enumerate(c["instrs"]))
+        else:
+            body = ";\n  ".join(instr_to_coq(i) for i in c["instrs"])
         out.append("Eval vm_compute in (R [\n  %s]).\n" % body)
     return "\n".join(out)
 
@@ -339,13 +365,13 @@ def _flatten_tuple(t):
     return t
 
 
-def parse_coq(text):
+def parse_coq(text, dual=False):
     """One entry per [Eval]: (list of observations, panicked)."""
     results = []
     text = text.replace("%nat", "").replace("%float", "")
     chunks = re.split(r"^\s*= ", text, flags=re.M)[1:]
     for ch in chunks:
-        body = re.split(r"^\s*: list obs \* bool", ch, flags=re.M)[0]
+        body = re.split(r"^\s*: list ", ch, flags=re.M)[0]
         toks = _TOK.findall(body)
         term, _ = _parse_term(toks, 0)
         obs_list, panicked = term
@@ -354,7 +380,10 @@ def parse_coq(text):
             items = []
             for it in o:
                 kind, ns, vs = it
-                items.append((int(kind), [int(x) for x in ns], [float(x) for x in vs]))
+                if dual:
+                    items.append((int(kind), [int(x) for x in ns], [tuple(x) for x in vs]))
+                else:
+                    items.append((int(kind), [int(x) for x in ns], [float(x) for x in vs]))
             case.append(items)
         if panicked:
             case.append("panic")
@@ -400,13 +429,18 @@ def item_equal(x, y, rtol):
     return all(close(p, q, rtol) for p, q in zip(x[2], y[2]))
 
 
-def first_difference(rust, model, rtol, adjudicate=None):
-    """Index of the first instruction whose observations differ, or None."""
+def first_difference(rust, model, rtol, adjudicate=None, lenient=None):
+    """Index of the first instruction whose observations differ, or None.  With
+    [adjudicate] only the listed instructions (and panics) are compared; [lenient] lists
+    instructions where the implementation may hold no gradient although the model does."""
     n = max(len(rust), len(model))
     for i in range(n):
         a = rust[i] if i < len(rust) else "missing"
         b = model[i] if i < len(model) else "missing"
         if adjudicate is not None and i not in adjudicate and a != "panic" and b != "panic":
+            continue
+        if lenient is not None and i in lenient and a != "panic" and b != "panic" \
+                and a and a[0][0] == 3 and b and b[0][0] == 4:
             continue
         if not items_equal(a, b, rtol):
             return i
